@@ -10,6 +10,9 @@ use text_utils::verif::{Event, Obj, ThreadKind};
 use tu_verif::run::Run;
 use tu_verif::sched::{self, Config, Exec, Halt, Parked};
 
+/// the poll budget of the unit being explored (recorded in replay cases)
+static SPIN: AtomicUsize = AtomicUsize::new(0);
+
 struct Shared {
     outputs: Mutex<Vec<usize>>,
     calls: Vec<AtomicUsize>,
@@ -84,7 +87,10 @@ fn check(run: &mut Run, mode: &str, w: usize, n: usize, bound: Option<usize>, x:
         run.nontrivial += 1;
     }
     let expect: Vec<usize> = (0..n).map(f).collect();
-    let case = || json!({"mode": mode, "workers": w, "items": n, "bound": bound, "choices": x.choices(), "schedule": x.schedule()});
+    let case = || json!({"mode": mode, "workers": w, "items": n, "bound": bound, "spin_polls": SPIN.load(Ordering::SeqCst), "choices": x.choices(), "schedule": x.schedule()});
+    if x.spun > 0 {
+        run.count_n("polls of busy waits let through (long waits)", x.spun);
+    }
     run.sample(|| json!({"mode": mode, "workers": w, "items": n, "schedule": x.schedule(), "output": x.result}));
     if let Some(r) = &x.result {
         run.outcome(&(w, n, r));
@@ -136,6 +142,9 @@ struct Unit {
     /// (k, of): this unit explores only the k-th share of the first-level subtrees of a bounded
     /// search that is split over `of` units (share 0 also checks the default execution)
     part: Option<(usize, usize)>,
+    /// "long waits": every busy-waiting worker really polls this many times before the scheduler
+    /// treats its wait as blocking (an item in front that is slow by so many polls); 0 = blocking at once
+    spin: usize,
 }
 
 fn units(run: &Run) -> Vec<Unit> {
@@ -144,21 +153,21 @@ fn units(run: &Run) -> Vec<Unit> {
     // explicit-state full search (no preemption bound): cheap, so it goes furthest
     for w in 0..=3usize {
         for n in 0..=(if quick { 3 } else { 6 }) {
-            u.push(Unit { mode: "states", w, n, bound: None, part: None });
+            u.push(Unit { mode: "states", w, n, bound: None, part: None, spin: 0 });
         }
     }
     if !quick {
         for n in 0..=4 {
-            u.push(Unit { mode: "states", w: 4, n, bound: None, part: None });
+            u.push(Unit { mode: "states", w: 4, n, bound: None, part: None, spin: 0 });
         }
         for n in 0..=2 {
-            u.push(Unit { mode: "states", w: 5, n, bound: None, part: None });
+            u.push(Unit { mode: "states", w: 5, n, bound: None, part: None, spin: 0 });
         }
     }
     // stateless preemption-bounded cross-check (merges nothing; grows fast with the bound)
     let mut split = |w: usize, n: usize, bound: usize, of: usize| {
         for k in 0..of {
-            u.push(Unit { mode: "bounded", w, n, bound: Some(bound), part: if of > 1 { Some((k, of)) } else { None } });
+            u.push(Unit { mode: "bounded", w, n, bound: Some(bound), part: if of > 1 { Some((k, of)) } else { None }, spin: 0 });
         }
     };
     if !quick {
@@ -167,7 +176,7 @@ fn units(run: &Run) -> Vec<Unit> {
         split(2, 4, 4, 8);
         split(3, 4, 2, 8);
     }
-    let mut bounded = |w: usize, n: usize, bound: usize| u.push(Unit { mode: "bounded", w, n, bound: Some(bound), part: None });
+    let mut bounded = |w: usize, n: usize, bound: usize| u.push(Unit { mode: "bounded", w, n, bound: Some(bound), part: None, spin: 0 });
     if quick {
         for n in 1..=3 {
             bounded(1, n, 3);
@@ -189,6 +198,18 @@ fn units(run: &Run) -> Vec<Unit> {
         bounded(3, 2, 3);
         bounded(4, 2, 1);
     }
+    // long waits: the same bounded search while every turn wait really spins (relative processing
+    // speed: the item in front is slower by that many polls of the turn counter)
+    let spin = if quick { 1 << 21 } else { 1 << 24 };
+    let mut long = |w: usize, n: usize, bound: usize| u.push(Unit { mode: "long-waits", w, n, bound: Some(bound), part: None, spin });
+    if quick {
+        long(2, 2, 1);
+    } else {
+        long(2, 2, 2);
+        long(2, 3, 1);
+        long(3, 3, 1);
+        long(4, 4, 0);
+    }
     u
 }
 
@@ -198,6 +219,7 @@ fn main() {
         let w = case["workers"].as_u64().unwrap() as usize;
         let n = case["items"].as_u64().unwrap() as usize;
         let choices: Vec<usize> = case["choices"].as_array().unwrap().iter().map(|v| v.as_u64().unwrap() as usize).collect();
+        sched::set_spin_polls(case["spin_polls"].as_u64().unwrap_or(0) as usize);
         let (x, calls) = exec(w, n, &choices);
         // replaying a recorded schedule must reproduce it exactly
         if x.choices() != choices {
@@ -209,7 +231,7 @@ fn main() {
     let us = units(&run);
     if let Some(n) = run.describe_unit() {
         let u = &us[n as usize];
-        println!("{}", json!({"mode": u.mode, "workers": u.w, "items": u.n, "bound": u.bound, "part": u.part}));
+        println!("{}", json!({"mode": u.mode, "workers": u.w, "items": u.n, "bound": u.bound, "part": u.part, "spin_polls": u.spin}));
         return;
     }
     run.bounds.insert("explicit_state".into(), json!("all interleavings (no preemption bound) for every listed (workers, items)"));
@@ -219,6 +241,8 @@ fn main() {
         if !run.unit(i as u64) {
             continue;
         }
+        sched::set_spin_polls(u.spin);
+        SPIN.store(u.spin, Ordering::SeqCst);
         // determinism of the machinery itself: the default schedule replayed twice gives identical traces
         let (a, _) = exec(u.w, u.n, &[]);
         let (b, _) = exec(u.w, u.n, &a.choices());
@@ -254,7 +278,7 @@ fn main() {
         run.count_n(&format!("{}:executions", u.mode), stats.executions);
         run.count_n("states", stats.states);
         run.count_n("transitions", stats.transitions);
-        per_unit.push(json!({"mode": u.mode, "workers": w, "items": n, "bound": bound, "part": u.part, "executions": stats.executions, "states": stats.states,
+        per_unit.push(json!({"mode": u.mode, "workers": w, "items": n, "bound": bound, "part": u.part, "spin_polls": u.spin, "executions": stats.executions, "states": stats.states,
             "transitions": stats.transitions, "terminal_states": stats.terminal_states, "max_depth": stats.max_depth,
             "max_preemptions_in_a_schedule": stats.max_preemptions_seen, "completed": !stats.stopped_early}));
         if stats.stopped_early && run.num_violations() == 0 {
